@@ -47,7 +47,8 @@ where
             std::io::ErrorKind::UnexpectedEof.into(),
         ));
     }
-    let rhost = if ip >> 24 == 0 {
+    // SOCKS4a: DSTIP is 0.0.0.x with non-zero x
+    let rhost = if ip != 0 && ip >> 8 == 0 {
         let mut domain = Vec::new();
         reader
             .read_until(0, &mut domain)
